@@ -87,13 +87,24 @@ class C10(CheckBase):
             cmd = [rng.choice(['extract-files', 'extract-unused']), 'out']
             globals_ = ['--drive', str(drv)]
         fault = rng.weighted([(7, 'none'), (2, 'rchunk'), (4, 'trunc'), (4, 'flip'), (1, 'notgzip'), (1, 'rfail'),
-                              (1, 'tmp_createfail'), (2, 'tmp_wfail'), (1, 'tmp_rfail')]
+                              (1, 'tmp_createfail'), (3, 'tmp_wfail'), (1, 'tmp_rfail')]
                              + ([(2, 'enum_trunc'), (2, 'enum_flip')] if small else []))
         case = {'image': image, 'gz': self.gen_gz_params(rng), 'cmd': cmd, 'globals': globals_, 'fault': fault,
                 'frac': rng.below(1001), 'edge': rng.weighted([(5, None), (1, 0), (1, 1), (1, -1), (1, -8), (1, -9), (1, 10)]),
                 'bit': rng.below(8), 'errno': rng.choice(['EIO', 'ENOSPC', 'EMFILE', 'EACCES']),
                 'chunk': {'seed': rng.below(1 << 30), 'max': rng.choice([1, 7, 100, 511, 513])},
                 'notgzip': rng.choice(['raw', 'zeros', 'text', 'zlib', 'empty'])}
+        if fault in ('tmp_wfail', 'tmp_rfail') and case['edge'] is not None and case['edge'] < 0 and not image.get('cut_sectors') and rng.chance(0.7):
+            # a spool fault in the last few bytes matters to a command that needs the far end of the image
+            d, si = drives[-1]
+            sj = image['surfaces'][si]
+            if rng.chance(0.6):
+                # (the one command that reads the far end without a catalogue entry telling it how much to expect)
+                case['cmd'] = ['extract-unused', 'out']
+                case['globals'] = ['--drive', str(d)]
+            else:
+                case['cmd'] = ['dump-sector', str(d), str(sj['tracks'] - 1), str(sj['spt'] - 1)]
+                case['globals'] = []
         return case
 
     # ------------------------------------------------------------------ execution
